@@ -401,6 +401,8 @@ def parse_rvalue(s: str) -> Rvalue:
         elif rest.startswith('fake '):
             rest = rest[len('fake '):]
         # `&'a mut`? not printed in this form
+        if rest.lstrip().startswith('/*tls*/'):
+            return Rvalue('unknown', text=t)        # address of a thread-local static (only inside std's thread_local! expansion)
         return Rvalue('ref', place=parse_place(rest), op=mut, text=t)
     m = re.match(r'([A-Za-z]+)\((.*)\)$', s, re.S)
     if m and m.group(1) in BINOPS:
